@@ -157,7 +157,7 @@ def build_c(q):
     funcs = [x for x in fl if x and not x.startswith('#')]
     ext = [x[len('#external '):].split() for x in fl if x.startswith('#external ')]
     ext = ext[0] if ext else []
-    missing = [e for e in ext if e not in ('vf_observe',) and not any(re.search(rx, e) for rx in ob.get('allow_external', []))]
+    missing = [e for e in ext if e not in ('vf_observe', 'vf_str_disjunct') and not any(re.search(rx, e) for rx in ob.get('allow_external', []))]
     if missing:
         raise ToolError('externals without a model: ' + ' '.join(missing))
     for rx in ob.get('expect_functions', []):
@@ -509,6 +509,10 @@ def main():
     known = load_known(prop)
     qs = expand(prop, spec, a.tier, a.only)
     if not qs: sys.exit('no queries selected')
+    # one run per work directory at a time: a second one waits for the first instead of sharing its files
+    import fcntl
+    os.makedirs(WORK, exist_ok=True)
+    lockf = open(os.path.join(WORK, '.lock.' + prop + WORK_SUFFIX), 'w'); fcntl.flock(lockf, fcntl.LOCK_EX)
     shutil.rmtree(os.path.join(WORK, prop + WORK_SUFFIX), ignore_errors=True)
     if not a.only: shutil.rmtree(os.path.join(VERIF, 'replays', prop), ignore_errors=True)
     recs = []
